@@ -290,7 +290,7 @@ impl Prop for C11 {
         ]
     }
     fn run_shard(&self, ctx: &mut Ctx<'_>) {
-        let n = ctx.budget(40_000, 1_000_000);
+        let n = ctx.budget(40_000, 2_000_000);
         let cap = ctx.tier.pick(40usize, 120usize);
         for i in 0..n {
             if i % 4 == 0 && ctx.should_stop() {
